@@ -2,7 +2,7 @@
 # usage: selftest/seed_eval.sh <PROP> [extra props to run]   -- confirms a seeded change (in /tmp/wt-<PROP>/seed_out) and runs the checks against it
 set -u
 P=$1; shift; EXTRA="$@"
-WT=/tmp/wt-$P; OUT=$WT/seed_out
+WT=${WTP:-/tmp/wt-}$P; OUT=$WT/seed_out
 [ -f $OUT/patch.diff ] || { echo "no patch"; exit 2; }
 cd $WT
 echo "--- suite with change:"; PYTHONPATH=$WT/src /venv/bin/python -m pytest -q -p no:cacheprovider --timeout=900 --deselect tests/test_e2e.py 2>&1 | tail -1
